@@ -7,6 +7,7 @@ From SC Require Import Lib.Prelude Lib.Int Lib.Host Model.FeeForwarder Proofs.Fe
 
 Lemma debit_only_by_authorised_forward c cs cl st' ret t h :
   1 <= min_temp_ttl (c_host c) ->
+  wf_call c cl = true ->
   let st := run c cs in
   step_ok c st cl = Ok (st', ret) ->
   balance (get_tok st' t) h < balance (get_tok st t) h ->
@@ -20,7 +21,7 @@ Lemma debit_only_by_authorised_forward c cs cl st' ret t h :
   \/ (exists recipient operator au,
         cl = Sweep t recipient operator au /\ h = c_fp c /\ In operator (c_managers c)).
 Proof.
-  intros Hm st H Hlt.
+  intros Hm Hwf st H Hlt.
   destruct cl as [n|tok to amt|tok owner spender amt exp au|k tok fee max exp target fn args user relayer au
                  |allowed tok operator au|tok recipient operator au].
   - (* Advance *) exfalso. cbn [step_ok] in H. destruct (n <? 0); [discriminate|].
@@ -42,7 +43,7 @@ Proof.
   - (* Forward *) left.
     destruct (forward_needs_auth _ _ _ _ _ _ _ _ _ _ _ _ _ _ _ H) as [[e [He1 [He2 He3]]] _].
     destruct (forward_fee_bounds _ _ _ _ _ _ _ _ _ _ _ _ _ _ _ H) as [Hf _].
-    destruct (forward_exact_debit_credit c cs _ _ _ _ _ _ _ _ _ _ _ _ _ Hm H) as [Hb _].
+    destruct (forward_exact_debit_credit c cs _ _ _ _ _ _ _ _ _ _ _ _ _ Hm Hwf H) as [Hb _].
     fold st in Hb. specialize (Hb t h). rewrite Hb in Hlt.
     destruct (N.eqb t tok) eqn:E; cbv iota in Hlt; [|lia]. apply N.eqb_eq in E. subst tok.
     destruct (N.eqb h user) eqn:Eu; cbv iota in Hlt.
